@@ -240,6 +240,13 @@ bool PeriodicExportingMetricReader::CollectAndExportOnce()
     task_thread->join();
   }
 
+  if (cancel_export_for_timeout.load(std::memory_order_acquire))
+  {
+    // This cycle may not have exported anything: ForceFlush requests served by it must not
+    // report success.
+    force_flush_cancelled_sequence_.store(notify_force_flush, std::memory_order_release);
+  }
+
   std::uint64_t notified_sequence = force_flush_notified_sequence_.load(std::memory_order_acquire);
   while (notify_force_flush > notified_sequence)
   {
@@ -321,7 +328,8 @@ bool PeriodicExportingMetricReader::OnForceFlush(std::chrono::microseconds timeo
     }
   }
   return result &&
-         force_flush_notified_sequence_.load(std::memory_order_acquire) >= current_sequence;
+         force_flush_notified_sequence_.load(std::memory_order_acquire) >= current_sequence &&
+         force_flush_cancelled_sequence_.load(std::memory_order_acquire) < current_sequence;
 }
 
 bool PeriodicExportingMetricReader::OnShutDown(std::chrono::microseconds timeout) noexcept
